@@ -117,7 +117,7 @@ def gen_value(g, form, ver, asz, osz, ctx, rng, depth=0):
         b = bytes(r.getrandbits(8) for _ in range(16))
         a.data, a.raw, a.value = b, list(b), list(b)
     elif f in ('block1', 'block2', 'block4', 'block', 'exprloc'):
-        n = r.choice([0, 1, 5, 127, 128, 130, 255, 256] + ([70000] if r.random() < 0.02 and f not in ('block1', 'block2') else []))
+        n = r.choice([0, 1, 5, 127, 128, 130, 255, 256] + ([70000] if ctx.get('big_blocks', True) and r.random() < 0.02 and f not in ('block1', 'block2') else []))
         if f == 'block1':
             n = min(n, 255)
         b = bytes(r.getrandbits(8) for _ in range(n)) if n < 1000 else bytes(n)
@@ -209,7 +209,7 @@ def enc_ref(g, form, w, v):
 
 def gen_info(rng, le, nunits=None, versions=(2, 3, 4, 5), exclude=(), unit_types=None, max_depth=5,
              max_kids=4, sibling=None, types_section=False, small=False, top_extra=None, ref_attrs=True,
-             shared_abbrev=None, allow_big=True, force=None, init_str=None, init_lstr=None):
+             shared_abbrev=None, allow_big=True, force=None, init_str=None, init_lstr=None, big_blocks=True):
     """Build a set of debug sections. Returns Built."""
     g = Gen(rng, le)
     if init_str:
@@ -246,7 +246,7 @@ def gen_info(rng, le, nunits=None, versions=(2, 3, 4, 5), exclude=(), unit_types
                                                                    'ref_addr', 'mixed'])
         if in_types and sibmode in ('ref_addr', 'mixed'):
             sibmode = 'ref4'      # DW_FORM_ref_addr always designates .debug_info; it cannot link siblings of a type unit
-        ctx = dict(stroffs=[], addrs=[], locoffs=[], rngoffs=[], forms=forms, strtexts=[])
+        ctx = dict(stroffs=[], addrs=[], locoffs=[], rngoffs=[], forms=forms, strtexts=[], big_blocks=big_blocks and allow_big)
         # ---- abbreviation declarations
         if shared and shared_tab is not None and shared_tab['ver5'] == (ver >= 5) and shared_tab['sib'] == sibmode:
             decls, abbrev_off = shared_tab['decls'], shared_tab['off']
